@@ -108,8 +108,11 @@ pub enum PathKind {
 pub struct WorkTx {
     pub payer: u8,
     pub fee: u64,
-    pub hops: u8, // number of hops for Valid / NotEndingAtCreator / broken variants (1..4)
+    pub hops: u8, // number of hops for Valid / NotEndingAtCreator / broken variants (1..5)
     pub kind: PathKind,
+    /// which hop carries the bad signature / after which hop the path is broken
+    #[serde(default)]
+    pub pos: u8,
 }
 
 #[derive(Debug, Clone, Serialize, Deserialize, PartialEq, Eq, Hash)]
@@ -180,7 +183,7 @@ pub fn run_gate_case(case: &GateCase) -> (Vec<(String, String)>, bool, &'static 
             Some(t) => t,
             None => continue,
         };
-        let hops = w.hops.clamp(1, 4) as usize;
+        let hops = w.hops.clamp(1, 5) as usize;
         match w.kind {
             PathKind::None => {}
             PathKind::Valid => {
@@ -197,16 +200,30 @@ pub fn run_gate_case(case: &GateCase) -> (Vec<(String, String)>, bool, &'static 
             PathKind::BadHopSignature => {
                 add_path(&mut tx, &router_ring(w.payer, case.creator, hops));
                 let l = tx.path.len();
-                tx.path[l - 1].sig[7] ^= 0x40;
+                // recorded cases (pos == 0) keep corrupting the last hop
+                let at = if w.pos == 0 { l - 1 } else { w.pos as usize % l };
+                tx.path[at].sig[7] ^= 0x40;
                 any_invalid = true;
             }
             PathKind::Gap => {
-                // two hops that are not contiguous: payer -> r1, r2 -> creator
-                let a = key(w.payer);
-                let r1 = key(4);
-                let r2 = key(5);
-                tx.add_hop(&a.1, &a.0, &r1.0);
-                tx.add_hop(&r2.1, &r2.0, &creator.0);
+                // a path of >= 2 individually valid hops ending at the creator that is broken after
+                // hop j: the next hop is signed by (and starts at) a key that never received it
+                let hops = hops.max(2);
+                let nodes = router_ring(w.payer, case.creator, hops);
+                let j = w.pos as usize % (hops - 1);
+                for i in 0..hops {
+                    let from = if i == j + 1 {
+                        // a stranger different from both neighbours
+                        (8u8..12).map(key).find(|k| k.0 != key(nodes[i]).0 && k.0 != key(nodes[i + 1]).0).unwrap()
+                    } else {
+                        key(nodes[i])
+                    };
+                    let to = key(nodes[i + 1]);
+                    if from.0 == to.0 {
+                        continue;
+                    }
+                    tx.add_hop(&from.1, &from.0, &to.0);
+                }
                 any_invalid = true;
             }
         }
@@ -275,16 +292,17 @@ pub fn arb_gate_case() -> impl Strategy<Value = GateCase> {
             (
                 0u8..4,
                 prop_oneof![2 => 1u64..5000, 3 => 5_000u64..5_000_000, 1 => Just(0u64)],
-                1u8..5,
+                1u8..6,
                 prop_oneof![
                     6 => Just(PathKind::Valid),
                     2 => Just(PathKind::None),
                     2 => Just(PathKind::NotEndingAtCreator),
                     1 => Just(PathKind::BadHopSignature),
-                    1 => Just(PathKind::Gap),
+                    2 => Just(PathKind::Gap),
                 ],
+                any::<u8>(),
             )
-                .prop_map(|(payer, fee, hops, kind)| WorkTx { payer, fee, hops, kind }),
+                .prop_map(|(payer, fee, hops, kind, pos)| WorkTx { payer, fee, hops, kind, pos }),
             1..5,
         ),
         prop_oneof![3 => Just(-1i32), 3 => Just(0i32), 1 => 1i32..50],
